@@ -2,9 +2,8 @@ SPECIFICATION Spec
 CONSTANTS
   Puncts <- PunctTable
   Keywords <- KeywordTable
-  Inputs <- PieceInputs
+  Inputs <- FileInputs
   MaxChars = 0
-  MaxPieces = 3
-INVARIANTS Tiles Stable Emit
-PROPERTY Terminates
+  MaxPieces = 0
+INVARIANTS Tiles Emit
 CHECK_DEADLOCK FALSE
